@@ -68,6 +68,8 @@ ASSUMPTIONS = [
 
 REPO = pathlib.Path(os.environ.get("SIMVERIF_REPO", "/repo"))
 QUICK_MAX_BYTES = 300_000
+# measured to parse in < 0.5 s although larger; the shipped map where fill_intersections=False changes the network
+QUICK_EXTRA = ("assets/maps/LGSVL/borregasave.xodr",)
 HEADER = 76  # 4 version + 64 map digest + 8 options digest
 _TIER = "quick"
 _MAPS = {}
@@ -75,8 +77,13 @@ PROBE = {"calls": 0, "hits": 0}
 _REF = collections.OrderedDict()
 _SIDE = collections.OrderedDict()
 OPS = ["load", "edit", "options", "delete", "foreign", "torn", "hdrflip", "oldver", "payload"]
-WEIGHTS = [8, 3, 2, 1, 3, 4, 3, 2, 2]
-FAULTS = ("foreign", "torn", "hdrflip", "oldver", "payload")
+WEIGHTS = [8, 3, 5, 1, 3, 4, 3, 2, 2]
+FAULTS = ("foreign", "torn", "hdrflip", "oldver", "payload", "options")  # ops that are followed by a cached load
+ABSENT = "absent"
+# one-entry changes of the current options; falsy values first (an options digest must not drop them)
+DELTAS = [("fill_intersections", (False, True, ABSENT)), ("fill_gaps", (False, True, ABSENT)),
+          ("elide_short_roads", (True, False, ABSENT)), ("tolerance", (ABSENT, 0.1, 0.02, 0.05)),
+          ("ref_points", (ABSENT, 8, 5, 12, 20))]
 
 
 def set_tier(tier):
@@ -89,8 +96,9 @@ def maps():
         found = []
         for p in sorted((REPO / "assets/maps").rglob("*.xodr")):
             size = p.stat().st_size
-            if size > 0 and (_TIER == "thorough" or size < QUICK_MAX_BYTES):
-                found.append((size, str(p.relative_to(REPO))))
+            name = str(p.relative_to(REPO))
+            if size > 0 and (_TIER == "thorough" or size < QUICK_MAX_BYTES or name in QUICK_EXTRA):
+                found.append((size, name))
         _MAPS[_TIER] = [name for _, name in sorted(found)]
     return _MAPS[_TIER]
 
@@ -145,17 +153,32 @@ def gen_opts(t):
     return o
 
 
+def vary_opts(t, cur):
+    """Mostly the current options with ONE entry changed (often to an explicit False), sometimes a fresh set."""
+    if t.draw(4, "optmode") == 3:
+        return gen_opts(t)
+    key, alts = DELTAS[t.weighted([4, 2, 2, 1, 1], "optkey")]
+    i = t.draw(len(alts), "optval")
+    if cur.get(key, ABSENT) == alts[i]:
+        i = (i + 1) % len(alts)
+    new = {k: v for k, v in cur.items() if k != key}
+    if alts[i] != ABSENT:
+        new[key] = alts[i]
+    return new
+
+
 def gen_load(t, force_cache=False):
     uc = t.draw(4, "useCache") < 3
     wc = t.draw(4, "writeCache") < 3
-    probes = [[t.draw(6, "probe"), t.draw(1 << 20, "elem"), t.draw(1 << 20, "a"), t.draw(4, "b")]
+    probes = [[t.draw(7, "probe"), t.draw(1 << 20, "elem"), t.draw(1 << 20, "a"), t.draw(4, "b")]
               for _ in range(t.intrange(3, 6, "nprobes"))]
     return {"op": "load", "useCache": uc or force_cache, "writeCache": wc, "probes": probes}
 
 
 def make_plan(t):
     ms = maps()
-    plan = {"map": t.choice(ms, "map"), "opts": gen_opts(t), "ops": []}
+    plan = {"map": t.choice(ms, "map"), "opts": gen_opts(t) if t.draw(2, "initopts") else {}, "ops": []}
+    cur = dict(plan["opts"])
     n = t.intrange(5, 10, "nops")
     ops = plan["ops"]
     ops.append(gen_load(t, force_cache=True))
@@ -170,12 +193,13 @@ def make_plan(t):
         elif kind == "edit":
             ops.append({"op": "edit", "kind": t.draw(3, "editkind"), "idx": t.draw(1 << 16, "idx"), "amt": t.draw(4, "amt")})
         elif kind == "options":
-            ops.append({"op": "options", "opts": gen_opts(t)})
+            cur = vary_opts(t, cur)
+            ops.append({"op": "options", "opts": dict(cur)})
         elif kind == "delete":
             ops.append({"op": "delete"})
         elif kind == "foreign":
             sub = t.draw(3, "foreign")  # 0 other map, 1 same map other options, 2 both
-            ops.append({"op": "foreign", "sub": sub, "other": t.draw(6, "othermap"), "opts": gen_opts(t) if sub else None})
+            ops.append({"op": "foreign", "sub": sub, "other": t.draw(6, "othermap"), "opts": vary_opts(t, cur) if sub else None})
         elif kind == "torn":
             ops.append({"op": "torn", "mode": t.draw(3, "mode"), "x": t.draw(4096, "where")})
         elif kind == "hdrflip":
@@ -490,6 +514,9 @@ def run_probes(inv, net, probes):
             inv.tolerant(pool[e % len(pool)], a // 2, a % 2)
         elif kind == 5:
             inv.drivable_point(e, a)
+        elif kind == 6:  # a point diagonally outside everything, between 1.05 and 1.2 x tolerance away
+            pool = (list(net.allRoads), els, list(net.intersections) or els, list(net.lanes))[b]
+            inv.outside(pool[e % len(pool)], a, e // 7)
         else:  # all maneuvers of an intersection (or a lane if the map has none)
             pool = list(net.intersections) or list(net.lanes)
             inv.element(pool[e % len(pool)])
